@@ -79,7 +79,7 @@ class Job:
         # False: paths exceeding the unwinding bound are cut (used only for "must block" obligations under a frozen
         # environment, where the statement after the call has to be unreachable)
         self.unwinding_assertions = unwinding_assertions
-        self.route = "dfcc" if enforce else "harness"
+        self.route = ("dfcc" if (enforce or self.replace) else "harness") + ("+loop-contracts" if loop_contracts else "")
 
 
 def run(cmd, timeout, mem_gb, cwd=None, stdout_path=None):
